@@ -163,7 +163,7 @@ func (i *Domain) Distance(
 			alignment = telem.NewAlignment(iter.Position(), uint32(sampleCount(iter.Size())))
 			return
 		}
-		if iter.TimeRange().ContainsStamp(tr.End) {
+		if iter.TimeRange().ContainsStamp(tr.End) || tr.End == iter.TimeRange().End {
 			if err = r.Close(); err != nil {
 				return
 			}
